@@ -20,7 +20,9 @@ from fractions import Fraction
 from .. import core, findlib as fl, gen_replace_c04 as g
 
 RULE = ("periodic structures from findlib.planted_structure (1-5 planted copies of 11 patterns of 1-5 atoms, any pose, "
-        "origins random / hugging faces / corners, orthorhombic / triclinic +- tilt / rotated cells, decoys), unique charges, "
+        "origins random / hugging faces / corners, orthorhombic / triclinic +- tilt / rotated cells, decoys), 40 % of them "
+        "given with partly UNWRAPPED coordinates (noble-gas bystanders and atoms of planted copies lying up to 0.4 A - and "
+        "less than 0.8 search lengths - outside the cell), unique charges, "
         "random groups, type labels = or != element names; replacement EMPTY / smaller / equal / larger, with / without "
         "atoms shared with the search pattern (same element + same coordinates; non-shared atoms differ in element or by "
         ">= 1/1024 A), shuffled atom order; f in {0,.1,.25,.5,.75,1} or random; replace_all on/off; random seeds. "
@@ -206,7 +208,8 @@ def tags_of(inp, out):
     i = inp["info"]
     t = ["mode:" + i["mode"], "shared:%s" % ("yes" if i["shared"] else "no"), "cell:" + i["cell"], "pattern:" + i["pattern"],
          "replace_all:%s" % inp["replace_all"], "place:%s" % i.get("boundary"),
-         "f:%s" % (inp["f"] if inp["f"] in g.FRACTIONS else "random")]
+         "f:%s" % (inp["f"] if inp["f"] in g.FRACTIONS else "random"),
+         "unwrapped-atoms:%s" % ("yes" if i.get("outside") else "no")]
     if out.get("found") is not None:
         t.append("found:%d" % len(out["found"][0]))
         t.append("replaced:%d" % len(out["used"]))
